@@ -79,7 +79,9 @@ Example C18_metadata_truth_nonvacuous :
   exists d, List.In (CSave 0 d [(K_CLASS, VClass (U"Op")); (K_INCOMPLETE, VBool true)]) (ob_cass ob) /\ length d = 4%nat.
 Proof.
   cbv zeta. split; [reflexivity|]. split.
-  - cbn [sites_ok op_body]. repeat split; try apply c18_send_clean.
-    apply C18_clean_sufficient. vm_compute. intuition discriminate.
+  - cbn [sites_ok op_body o_alias].
+    split; [exact c18_send_clean|]. split; [exact I|].
+    split; [apply C18_clean_sufficient; vm_compute; intuition discriminate|].
+    split; [exact c18_send_clean|]. split; exact I.
   - vm_compute. split; [reflexivity|]. eexists. split; [right; left; reflexivity|reflexivity].
 Qed.
